@@ -8,8 +8,9 @@ from ..genrun import run_config
 
 RULE = ("case = (raw numeric type, scale graph of 1..MaxScales scales over Linear / Polynomial (0-4 coefficients) / Table "
         "(increasing and decreasing) / no-op / Add / Subtract with every wiring to raw data or earlier scales, placement "
-        "on channel / group / root with shadowing levels, NI_Number_Of_Scales given or inferred); values are judged "
-        "when every node is representable in its dtype; non-trivial = a scaling applies; distinct = distinct cases")
+        "on channel / group / root with shadowing levels, NI_Number_Of_Scales given or inferred); plus sensor scales (RTD / thermocouple / thermistor / strain, alone and with a "
+        "linear scale) for purity, windows and dtype only; values are judged "
+        "when every node is representable in its dtype and no sensor scale is involved; non-trivial = a scaling applies; distinct = distinct cases")
 
 CONFIGS = {
     "quick": [("TdmsScaling", "TdmsScaling.cfg", {"MaxScales": 2, "RawTypes": '{"int16", "uint8", "float32"}'}),
@@ -22,6 +23,12 @@ CONFIGS = {
               ("TdmsScaling", "TdmsScaling.cfg", {"MaxScales": 1, "RawTypes": '{"int16"}', "UnaryKinds": '{"Linear", "NoOp"}',
                                                   "Levels": '{"channel"}', "DaqTypes": '{"int16", "uint8", "float32"}',
                                                   "MaxDaqScales": 2}),
+              # sensor scales (RTD, thermocouple, thermistor, strain) on raw data of the type they compute in (float64: an
+              # astype without a copy would let them work in place) and on narrower types, alone and feeding / fed by a
+              # linear scale: evaluated for purity, windows and dtype; values are C17/C18's subject and not judged
+              ("TdmsScaling", "TdmsScaling.cfg", {"MaxScales": 2, "RawTypes": '{"float64", "float32", "int16"}',
+                                                  "UnaryKinds": '{"Sensor", "Linear"}', "BinaryKinds": "{}",
+                                                  "Levels": '{"channel"}'}),
               # a chain of 12 scales (more scales than one digit), count given and inferred from the property names
               ("TdmsScaling", "TdmsScaling.cfg", {"MaxScales": 1, "RawTypes": '{"int16"}', "UnaryKinds": '{"NoOp"}',
                                                   "BinaryKinds": "{}", "LongChains": "{11, 12}"})],
@@ -33,7 +40,11 @@ CONFIGS = {
                  ("TdmsScaling", "TdmsScaling.cfg", {"MaxScales": 3, "RawTypes": '{"int16"}',
                                                      "UnaryKinds": '{"Linear", "Table"}', "Levels": '{"channel"}'}),
                  ("TdmsScaling", "TdmsScaling.cfg", {"MaxScales": 1, "RawTypes": '{"int32", "float64", "uint16"}',
-                                                     "Shadow": "{TRUE}"})],
+                                                     "Shadow": "{TRUE}"}),
+                 # sensor scales, purity / windows / dtype only (see the quick tier), all raw types
+                 ("TdmsScaling", "TdmsScaling.cfg", {"MaxScales": 2, "RawTypes": '{"float64", "float32", "int16", "int32", '
+                                                     '"uint8", "uint64"}', "UnaryKinds": '{"Sensor", "Linear"}',
+                                                     "BinaryKinds": "{}", "Levels": '{"channel"}'})],
 }
 
 
